@@ -480,3 +480,289 @@ CURATED = [
     ("target.py", "if (t := lambda p: p.x):\n    pass\n"),
     ("target.py", "print(lambda: 1)\n"),
 ]
+
+
+# ====================================================================== whole-pipeline modules
+# FileGen + a call graph among the module-level callables (the shapes `resultslib.ProgGen` produces,
+# as SOURCE TEXT, over every kind of callable the file stage registers): plain / async functions,
+# named lambdas, classes with `__init__`, static methods, namedtuples, enums, `@rattr_results`
+# declared functions, ignored and excluded functions; positional / keyword / starred / compound
+# arguments; chains, diamonds, the same callee twice, recursion; definition order shuffled.
+
+ARG_SHAPES = ["param", "param", "param", "param", "attr", "sub", "call", "const", "tuple", "star"]
+UNIT_KINDS = ["def"] * 6 + ["lambda", "init", "init", "static", "nt", "enum", "declared", "ignored", "excluded", "async"]
+
+
+def render_sig(sig, lead=()):
+    parts = list(lead)
+    for p in sig["posonly"]:
+        parts.append(p["name"] + ("=0" if p["default"] else ""))
+    if sig["posonly"]:
+        parts.append("/")
+    for p in sig["args"]:
+        parts.append(p["name"] + ("=0" if p["default"] else ""))
+    if sig["vararg"]:
+        parts.append("*" + sig["vararg"])
+    elif sig["kwonly"]:
+        parts.append("*")
+    for p in sig["kwonly"]:
+        parts.append(p["name"] + ("=0" if p["default"] else ""))
+    if sig["kwarg"]:
+        parts.append("**" + sig["kwarg"])
+    return ", ".join(parts)
+
+
+class PipeGen(FileGen):
+    def __init__(self, rng, target, hostile=0.02):
+        super().__init__(rng, target, hostile=hostile)
+        self.shared_names = rng.random() < 0.3
+        self.clean = rng.random() < 0.25       # bare arguments, a forest: the fragment of the tree theorems
+        self.units = []
+
+    def import_stmt(self):
+        for _ in range(30):
+            st = super().import_stmt()
+            if "*" not in st[0]:
+                return st
+        return ["import solo"]
+
+    # ------------------------------------------------------------ signatures
+    def signature(self, i, kind):
+        r = self.r
+        n = r.randint(1, 3)
+        names = [f"p{i}{c}" for c in "abc"[:n]]
+        if self.shared_names:
+            names = r.sample(["left", "right", "item", "other"], n)
+        kinds = [r.choice(["po", "ar", "ar", "ar", "ko"]) for _ in names]
+        kinds.sort(key={"po": 0, "ar": 1, "ko": 2}.get)
+        po = [a for a, k in zip(names, kinds) if k == "po"]
+        ar = [a for a, k in zip(names, kinds) if k == "ar"]
+        ko = [a for a, k in zip(names, kinds) if k == "ko"]
+        pos = po + ar
+        ndef = r.choice([0, 0, 0, 1]) if pos else 0
+        dpos = [j >= len(pos) - ndef for j in range(len(pos))]
+        sig = {"posonly": [{"name": x, "default": dpos[j]} for j, x in enumerate(po)],
+               "args": [{"name": x, "default": dpos[len(po) + j]} for j, x in enumerate(ar)],
+               "vararg": (f"va{i}" if r.random() < 0.12 else None),
+               "kwonly": [{"name": x, "default": r.random() < 0.4} for x in ko],
+               "kwarg": (f"kw{i}" if r.random() < 0.12 else None)}
+        if self.clean:
+            sig["vararg"] = sig["kwarg"] = None
+        if kind == "nt":
+            fields = r.choice([["x", "y"], ["only"], ["u", "v", "w"]])
+            sig = {"posonly": [], "args": [{"name": x, "default": False} for x in fields], "vararg": None, "kwonly": [], "kwarg": None}
+        if kind == "enum":
+            sig = {"posonly": [], "args": [{"name": "_id", "default": False}], "vararg": None, "kwonly": [], "kwarg": None}
+        return sig
+
+    @staticmethod
+    def params_of(sig):
+        ps = [p["name"] for k in ("posonly", "args", "kwonly") for p in sig[k]]
+        return ps + [x for x in (sig["vararg"], sig["kwarg"]) if x]
+
+    # ------------------------------------------------------------ calls
+    def arg_expr(self, caller_params, shape, i):
+        r = self.r
+        p = r.choice(caller_params) if caller_params else "glob"
+        return {"param": p, "attr": f"{p}.n{i}", "sub": f"{p}[0]", "call": f"{p}.mk()", "const": r.choice(["1", "'s'", "None"]),
+                "tuple": f"({p}, 1)", "star": f"*{p}"}[shape]
+
+    def call_to(self, caller_params, u):
+        r = self.r
+        sig, i = u["sig"], u["i"]
+        shapes = ["param"] if self.clean else ARG_SHAPES
+        nostar = [s for s in shapes if s != "star"]
+        parts = []
+        pos = sig["posonly"] + sig["args"]
+        required = [p for p in pos if not p["default"]]
+        k = r.randint(len(required) if self.clean else len(sig["posonly"]), len(pos)) if pos else 0
+        if not self.clean and r.random() < 0.08:
+            k = r.randint(0, len(pos) + 1)
+        for _ in range(k):
+            parts.append(self.arg_expr(caller_params, r.choice(nostar), i))
+        if sig["vararg"] and r.random() < 0.5 and k >= len(pos):
+            parts.append(self.arg_expr(caller_params, r.choice(shapes), i))
+        for p in sig["args"][max(0, k - len(sig["posonly"])):]:
+            if not p["default"] or r.random() < 0.5:
+                parts.append(f"{p['name']}={self.arg_expr(caller_params, r.choice(nostar), i)}")
+        for p in sig["kwonly"]:
+            if not p["default"] or r.random() < 0.5:
+                parts.append(f"{p['name']}={self.arg_expr(caller_params, r.choice(nostar), i)}")
+        if sig["kwarg"] and r.random() < 0.5:
+            parts.append(f"extra{i}={self.arg_expr(caller_params, 'param', i)}")
+        if not self.clean and r.random() < 0.04:
+            parts.append(f"bogus{i}={self.arg_expr(caller_params, 'param', i)}")
+        if not self.clean and r.random() < 0.04 and sig["args"] and k > len(sig["posonly"]) and not any(x.startswith(sig["args"][0]["name"] + "=") for x in parts):
+            parts.append(f"{sig['args'][0]['name']}={self.arg_expr(caller_params, 'param', i)}")      # by position and by name
+        return f"{u['call']}({', '.join(parts)})"
+
+    def call_stmt(self, caller_params, u, in_lambda=False):
+        r = self.r
+        c = self.call_to(caller_params, u)
+        if in_lambda:
+            return c
+        form = r.choice(["expr", "expr", "assign", "return", "attr", "nested"]) if not self.clean else r.choice(["expr", "assign"])
+        if form == "expr":
+            return [c]
+        if form == "assign":
+            return [f"{self.fresh('res')} = {c}"]
+        if form == "return":
+            return [f"if {caller_params[0] if caller_params else 'glob'}:", f"    return {c}"]
+        if form == "attr":
+            return [f"{c}.after{u['i']}"]
+        return [f"print({c})"]
+
+    def noise_call(self, params):
+        r = self.r
+        p = params[0] if params else "glob"
+        return r.choice([
+            [f"{p}.meth({p})"], [f"undefined_fn({p})"], [f"print({p}.pr)"], [f"os.path.join({p}.q)"], [f"helper({p})"],
+            [f"helper({p}, w={p}.w)"], [f"Cls({p}, {p}.b)"], [f"kept = Cls({p})"], [f"WithStatic.sm({p})"], [f"lam({p})"],
+            [f"nt = NT({p}, {p}.v)"], [f"def inner(z):", "    return z.n", f"inner({p})"], [f"getattr({p}, 'ga')"],
+            [f"sorted({p}, key=lambda q: q.k)"], [f"Bare()"], [f"collections.OrderedDict({p})"], [f"{p}.a.b.c({p})"],
+            [f"lsub.f({p})"], [f"defaultdict(list)"], [f"{p}()"], [f"helper({p})({p})"], [f"glob({p})"],
+        ] + ([[f"ghost({p})"]] if r.random() < 0.1 else []))
+
+    # ------------------------------------------------------------ bodies
+    def accesses(self, u, stmts=True):
+        r = self.r
+        i = u["i"]
+        out = []
+        for p in u["params"]:
+            if r.random() < 0.8:
+                kinds = ["get", "get", "set", "del", "deep"] if self.clean else ["get", "get", "set", "del", "deep", "subget", "starget", "local"]
+                if not stmts:
+                    kinds = ["get", "get", "deep", "subget"]
+                kind = r.choice(kinds)
+                out.append({"get": [f"{p}.g{i}"], "set": [f"{p}.s{i} = 1"], "del": [f"del {p}.d{i}"], "deep": [f"{p}.m{i}.q{i}"],
+                            "subget": [f"{p}[0].i{i}"], "starget": [f"print(*{p}.st{i})"],
+                            "local": [f"loc{i} = {p}", f"loc{i}.l{i}"]}[kind])
+        return out
+
+    def build_units(self):
+        r = self.r
+        n = r.randint(2, 7)
+        us = []
+        for i in range(n):
+            kind = r.choice(UNIT_KINDS if not self.clean else ["def"] * 5 + ["lambda", "static", "async"])
+            sig = self.signature(i, kind)
+            name = {"def": f"pf{i}", "async": f"pa{i}", "lambda": f"pl{i}", "init": f"PK{i}", "static": f"PS{i}", "nt": f"PN{i}",
+                    "enum": f"PE{i}", "declared": f"pd{i}", "ignored": f"pi{i}", "excluded": f"excl_p{i}"}[kind]
+            us.append({"i": i, "kind": kind, "name": name, "call": name + (".sm" if kind == "static" else ""), "sig": sig,
+                       "params": self.params_of(sig)})
+        edges = {i: [] for i in range(n)}
+        for i in range(n):
+            for j in range(i + 1, n):
+                if r.random() < (0.45 if j == i + 1 else 0.25):
+                    edges[i].append(j)
+                    if not self.clean and r.random() < 0.15:
+                        edges[i].append(j)
+        if self.clean:
+            seen = set()
+            for i in range(n):
+                keep = [j for j in edges[i] if j not in seen and not seen.add(j)]
+                edges[i] = keep
+        elif r.random() < 0.3:
+            a, b = r.randrange(n), r.randrange(n)
+            edges[max(a, b)].append(min(a, b))
+        for u in us:
+            u["edges"] = edges[u["i"]]
+        self.units = us
+        return us
+
+    def unit_source(self, u):
+        r = self.r
+        k, i = u["kind"], u["i"]
+        ps = u["params"]
+        callees = [self.units[j] for j in u["edges"]]
+        if k == "nt":
+            return [f"{u['name']} = namedtuple('{u['name']}', {[p['name'] for p in u['sig']['args']]!r})"]
+        if k == "enum":
+            return [f"class {u['name']}(Enum):", f"    RED{i} = 1", f"    GREEN{i} = 2"]
+        if k == "lambda":
+            items = [x[0] for x in self.accesses(u, stmts=False)] + [self.call_to(ps, c) for c in callees]
+            body = "(" + ", ".join(items) + ("," if len(items) == 1 else "") + ")" if items else "0"
+            return [f"{u['name']} = lambda {render_sig(u['sig'])}: {body}"]
+        if k == "declared":
+            calls = ", ".join(f"('{c['call']}()', ({[ps[0]] if ps else []!r}, {{}}))" for c in callees)
+            return [f"@rattr_results(gets={{'{(ps or ['glob'])[0]}.dx{i}'}}, sets={{'{(ps or ['glob'])[-1]}.dy{i}'}}, calls=[{calls}])",
+                    f"def {u['name']}({render_sig(u['sig'])}):", "    pass"]
+        body = self.accesses(u)
+        for c in callees:
+            body.append(self.call_stmt(ps, c))
+        if not self.clean:
+            for _ in range(r.choice([0, 0, 1, 1, 2])):
+                body.append(self.noise_call(ps))
+        r.shuffle(body)
+        flat = [l for b in body for l in b] or ["pass"]
+        if k in ("def", "async", "ignored", "excluded"):
+            hdr = f"{'async ' if k == 'async' else ''}def {u['name']}({render_sig(u['sig'])}):"
+            return (["@rattr_ignore"] if k == "ignored" else []) + [hdr] + ind(flat)
+        if k == "init":
+            extra = [f"    attr{i} = 1"] if r.random() < 0.5 else []
+            return [f"class {u['name']}:"] + extra + ind([f"def __init__({render_sig(u['sig'], lead=['self'])}):"] + ind(flat))
+        if k == "static":
+            extra = [f"    attr{i} = 1"] if r.random() < 0.3 else []
+            if not self.clean and r.random() < 0.15:
+                extra.append("    sm = 1")          # a class attribute of the static method's name is registered first
+            return [f"class {u['name']}:"] + extra + ind(["@staticmethod", f"def sm({render_sig(u['sig'])}):"] + ind(flat))
+        raise AssertionError(k)
+
+    def pipeline_module(self):
+        r = self.r
+        lines = ["from enum import Enum", "import lp.sub as lsub", "from ghost_mod import ghost"] + HEADER.split("\n")
+        us = list(self.build_units())
+        r.shuffle(us)
+        chunks = []
+        for u in us:
+            src = self.unit_source(u)
+            try:
+                ast.parse("\n".join(src))
+            except SyntaxError:
+                src = [f"def {u['name']}({render_sig(u['sig'])}):", "    pass"] if u["kind"] in ("def", "async", "ignored", "excluded") else \
+                      [f"{u['name']} = 0"]
+            chunks.append(src)
+        for _ in range(r.choice([0, 0, 1, 2, 4]) if not self.clean else 0):
+            for _try in range(10):
+                st = self.stmt(0)
+                try:
+                    ast.parse("\n".join(st))
+                except SyntaxError:
+                    continue
+                chunks.insert(r.randrange(len(chunks) + 1), st)
+                break
+        for c in chunks:
+            lines += c
+        return "\n".join(lines) + "\n"
+
+
+def gen_pipeline_module(rng: random.Random, hostile=0.02):
+    """(source, target path relative to the project root) for the whole-pipeline stage."""
+    target = rng.choice(TARGETS)
+    return PipeGen(rng, target, hostile=hostile).pipeline_module(), target
+
+
+PIPELINE_CURATED = [
+    ("target.py", "from ghost_mod import g\nimport ghost_pkg.sub\ndef ok(a):\n    return ghost_pkg.sub.h(a)\ndef f(a):\n    return g(a)\n"),
+    ("target.py", "from lp import *\ndef f(a):\n    return a.x\n"),
+    ("target.py", "def top(a, b):\n    one(a)\n    two(b)\ndef one(x):\n    leaf(x)\ndef two(x):\n    leaf(x)\ndef leaf(l):\n    l.attr\n"),
+    ("target.py", "def top(z):\n    mid(z.y)\ndef mid(p):\n    low(p.q)\ndef low(m):\n    leaf(m)\ndef leaf(l):\n    l.attr = 1\n"),
+    ("target.py", "def ev(a):\n    a.e\n    od(a.n)\ndef od(b):\n    b.o\n    ev(b.m)\n"),
+    ("target.py", "def f(**kw):\n    kw.y\ndef g():\n    f()\n"),
+    ("target.py", "def f(a):\n    a.x\n    f(a)\n"),
+    ("target.py", "def a(p):\n    b(p)\ndef b(q):\n    q.bq\n    c(q)\ndef c(r):\n    r.cr = 1\n    del r.cd\n"),
+    ("target.py", "def use(o):\n    k = K(o)\n    K(o.z)\n    return K(o.w)\nclass K:\n    def __init__(self, v):\n        self.f = v.in_init\n"),
+    ("target.py", "class K:\n    @staticmethod\n    def sm(v, w=0):\n        return v.a + w.b\ndef use(x, y):\n    return K.sm(x, w=y)\n"),
+    ("target.py", "from rattr.analyser.annotations import rattr_ignore\n@rattr_ignore\ndef ig(a):\n    return a.x\ndef excl_f(a):\n    return a.y\ndef use(a):\n    def inner(q):\n        return q.z\n    return ig(a) + excl_f(a) + inner(a) + a.m(a)\n"),
+    ("target.py", "import os\nimport lp.sub\nfrom lp.sub import f as ff\ndef use(a):\n    return os.path.join(a.p) + lp.sub.g(a.x) + ff(a.y) + nope.thing(a)\n"),
+    ("target.py", "def cal(a, /, b, *, k):\n    return a.x + b.y + k.z\ndef use(p, q):\n    cal(p)\n    cal(p, q, q, k=p)\n    cal(p, b=q, zz=p)\n    cal(p, q, b=p, k=q)\n    cal(k=p)\n"),
+    ("target.py", "from enum import Enum\nfrom collections import namedtuple\nclass E(Enum):\n    RED = 1\n    GREEN = 2\nP = namedtuple('P', ['x', 'y'])\ndef use(a):\n    e = E(a.v)\n    p = P(a.x, a.y)\n    return e, p\n"),
+    ("target.py", "lm = lambda p, q=0: (p.in_lam, helper2(q))\ndef helper2(z):\n    return z.h2\ndef use(a, b):\n    return lm(a, b)\n"),
+    ("target.py", "def callee(p):\n    getattr(p[0], 'x')\n    getattr(p, 'b').c\ndef caller(q):\n    callee(q)\n"),
+    ("target.py", "def f(a):\n    g(a)\n    g(a.b)\ndef g(x):\n    h(x)\n    x.gx\ndef h(y):\n    y.hy\n"),
+    ("target.py", "class helper:\n    def __init__(self, q):\n        self.q = q.cq\ndef helper(z):\n    return z.a\ndef use(a):\n    return helper(a)\n"),
+    ("target.py", "class K:\n    sm = 1\n    @staticmethod\n    def sm(v):\n        return v.a\n    @staticmethod\n    def other(w):\n        return w.b\ndef use(x):\n    return K.sm(x) + K.other(x)\n"),
+    ("target.py", "def f(a):\n    return a.x\ndef f(b, c):\n    return b.y + c.z\ndef use(p, q):\n    f(p)\n    f(p, q)\n"),
+    ("target.py", "def use(o):\n    return early(o)\nclass early:\n    def __init__(self, v, w=0):\n        self.f = v.a\n    def __init__(self, v):\n        self.g = v.b\n"),
+    ("target.py", "from rattr.analyser.annotations import rattr_results\n@rattr_results(gets={'a.x'}, calls=[('leaf()', (['a'], {}))])\ndef decl(a):\n    pass\ndef leaf(l):\n    l.deep = 1\ndef use(u):\n    decl(u)\n"),
+]
